@@ -106,7 +106,7 @@ def compare_view(ac, st, state_len=24, skip=()):
 
 
 class Session:
-    def __init__(self, plan, max_iterations=400_000):
+    def __init__(self, plan, max_iterations=20_000):
         cfg = plan.get("config", {})
         self.plan = plan
         self.cfg = cfg
@@ -211,7 +211,9 @@ class Session:
                 if conn.open:
                     conn.close(rst=bool(op.get("rst")))
                     w.fire("fin_idle" if not op.get("rst") else "rst_idle")
-            await asyncio.sleep(0.01)
+            # TCP is FIFO: the close is delivered after everything already in flight; wait for it
+            last = max([c._last_sched for c in w.net.conns] + [w.loop.time()])
+            await asyncio.sleep(max(0.0, last - w.loop.time()) + 0.01)
         else:
             raise ValueError(f"unknown op {kind}")
         self.clear_directives()
